@@ -281,7 +281,28 @@ func (x *Exec) lazyGhost(g *GhostDecl, ep *Epoch) Value {
 	if ep.id != "" {
 		n += "@" + ep.id
 	}
-	return Scalar(Var(n, g.Sort), nil)
+	return x.ghostShape(g, n, false)
+}
+
+// ghostShape builds a ghost value (scalar or sequence) with named or fresh components.
+func (x *Exec) ghostShape(g *GhostDecl, name string, fresh bool) Value {
+	mk := func(n string, s Sort) *Term {
+		if fresh {
+			return Fresh(n, s)
+		}
+		return Var(n, s)
+	}
+	switch g.Sort {
+	case "RefSeq", "IntSeq":
+		es := SRef
+		if g.Sort == "IntSeq" {
+			es = SInt
+		}
+		v := Value{Kind: KSlice, Arr: mk(name+".arr", ArraySort(SInt, es)), Len: mk(name+".len", SInt), IsNil: False}
+		x.addFact(v.Len, Le(IntLit(0), v.Len))
+		return v
+	}
+	return Scalar(mk(name, g.Sort), nil)
 }
 
 // ---- selectors -----------------------------------------------------------
